@@ -569,21 +569,23 @@ TOK_SIGS = [(4, 4), (3, 4), (2, 4), (6, 8), (5, 8), (2, 2), (12, 8), (3, 16), (7
 def gen_cfg(r, small=True, valid_bins=False):
     nt = r.choice([1, 1, 2, 3, 4])
     pr = r.choice([(60, 64), (58, 66), (60, 61), (21, 108)] if not small else [(60, 64), (58, 66), (60, 61), (60, 72)])
-    steps = r.choice([None, None, None, [12, 24], [6, 12, 24], [2, 4, 8, 16], [3, 6, 12, 24, 48], [24]])
-    values = r.choice([None, None, None, [12, 24], [6, 12, 24, 48], [4, 8, 16], [24]])
+    steps = r.choice([None, None, None, [12, 24], [6, 12, 24], [2, 4, 8, 16], [3, 6, 12, 24, 48], [24], [24, 12], [16, 2, 8, 4], [12, 12, 24]])
+    values = r.choice([None, None, None, [12, 24], [6, 12, 24, 48], [4, 8, 16], [24], [24, 12], [48, 6, 24, 12], [12, 12]])
     nb = r.choice([1, 1, 2, 3, 4, 5, 8, 8, 16, 127, 7, 12] + ([] if valid_bins else [100, 128, 60, 19, 23, 64]))
     flags = tuple(r.random() < 0.5 for _ in range(5))   # running, fuse_track, fuse_value, fuse_velocity, simplify
     size = (nt if flags[1] else 1) * (pr[1] - pr[0] + 1) * ((len(values) if values else 9) if flags[2] else 1) * \
         (nb if flags[3] else 1)
     if size > 2500:      # keep one vocabulary small enough to be rendered inside Coq in about a second
         return gen_cfg(r, small, valid_bins)
-    return (nt, pr[0], pr[1], steps, values, nb) + flags + (r.choice([24] * 10 + [48, 12, 15, 25]),)
+    tsr = r.choice([(2, 16)] * 6 + [(2, 8), (4, 12), (1, 32), (8, 8)])
+    return (nt, pr[0], pr[1], steps, values, nb) + flags + (r.choice([24] * 10 + [48, 12, 15, 25]), tsr)
 
 
 def mk_tok(cfg):
     nt, lo, hi, steps, values, nb, run, ft, fv, fw, simp = cfg[:11]
     ppqn = cfg[11] if len(cfg) > 11 else None
-    return Tokeniser(ppqn=ppqn, num_tracks=nt, pitch_range=(lo, hi), step_sizes=list(steps) if steps else None,
+    tsr = tuple(cfg[12]) if len(cfg) > 12 else (2, 16)
+    return Tokeniser(ppqn=ppqn, time_signature_range=tsr, num_tracks=nt, pitch_range=(lo, hi), step_sizes=list(steps) if steps else None,
                      note_values=list(values) if values else None, velocity_bins=nb, flag_running_values=run,
                      flag_fuse_track=ft, flag_fuse_value=fv, flag_fuse_velocity=fw, flag_simplify_time_signature=simp)
 
@@ -591,8 +593,9 @@ def mk_tok(cfg):
 def lit_cfg(cfg):
     nt, lo, hi, steps, values, nb, run, ft, fv, fw, simp = cfg[:11]
     ppqn = cfg[11] if len(cfg) > 11 else 24
+    tsr = cfg[12] if len(cfg) > 12 else (2, 16)
     o = lambda l: f"(Some {lit_zs(l)})" if l else "None"
-    return (f"(make_cfg_ppqn {ppqn} {nt} {lo} {hi} {o(steps)} {o(values)} {nb} {lit_bool(run)} {lit_bool(ft)} {lit_bool(fv)} "
+    return (f"(make_cfg_full {tsr[0]} {tsr[1]} {ppqn} {nt} {lo} {hi} {o(steps)} {o(values)} {nb} {lit_bool(run)} {lit_bool(ft)} {lit_bool(fv)} "
             f"{lit_bool(fw)} {lit_bool(simp)})")
 
 
@@ -606,11 +609,11 @@ Op("vocab", lambda r: gen_cfg(r), _impl_vocab, lambda cfg: f"show_vocab {lit_cfg
 
 
 def cfg_steps(cfg):
-    return sorted(cfg[3]) if cfg[3] else [2, 3, 4, 6, 8, 12, 16, 24]
+    return sorted(set(cfg[3])) if cfg[3] else [2, 3, 4, 6, 8, 12, 16, 24]
 
 
 def cfg_values(cfg):
-    return sorted(cfg[4]) if cfg[4] else [4, 6, 8, 9, 12, 16, 18, 24, 36]
+    return sorted(set(cfg[4])) if cfg[4] else [4, 6, 8, 9, 12, 16, 18, 24, 36]
 
 
 def gen_piece(r, cfg, valid=True, nbars=None, meta_first=False):
@@ -908,7 +911,8 @@ def gen_history(r, nsteps=None, two_sided=False):
                       "OSetChannel", "OOverwriteAbs", "OOverwriteRel", "OSplit", "OScale", "OTranspose", "OQuantise",
                       "OQnl", "OQuantNorm", "ORefresh", "OReadAbs", "OReadRel", "OEquals", "OPairings", "ODuration",
                       "OEditAbs", "OEditRel", "OCopy", "OCopy", "OBarInit", "OBarCopy", "OSplitBars", "new",
-                      "OReadAbs", "OReadRel", "ONormalise", "OTranspose"])
+                      "OReadAbs", "OReadRel", "ONormalise", "OTranspose", "OQuantDefault", "OQnlDefault", "OQuantNormDefault",
+                      "OScaleQ"])
         if k == "new":
             new()
         elif k == "OCopy":
@@ -945,6 +949,10 @@ def gen_history(r, nsteps=None, two_sided=False):
             # number of pieces is not known here: the executor appends as many kinds as pieces
         elif k == "OScale":
             ops.append((k, i, r.randint(1, 4)))
+        elif k == "OScaleQ":
+            ops.append((k, i, r.randint(1, 3)))
+        elif k in ("OQuantDefault", "OQnlDefault", "OQuantNormDefault"):
+            ops.append((k, i))
         elif k == "OTranspose":
             ops.append((k, i, r.choice([0, 1, -1, 2, 12, -12, 7, 50, -50, 13])))
         elif k == "OQuantise":
@@ -1035,6 +1043,14 @@ def _exec(ops, upto=None, trace=True, return_store=False, hook=None):
                 out = str(len(ps))
             elif k == "OScale":
                 store[o[1]].scale(o[2], quantise_afterwards=False)
+            elif k == "OScaleQ":
+                store[o[1]].scale(o[2])                      # default: quantise_and_normalise afterwards
+            elif k == "OQuantDefault":
+                store[o[1]].quantise()
+            elif k == "OQnlDefault":
+                store[o[1]].quantise_note_lengths()
+            elif k == "OQuantNormDefault":
+                store[o[1]].quantise_and_normalise()
             elif k == "OTranspose":
                 out = "T" if store[o[1]].transpose(o[2]) else "F"
             elif k == "OQuantise":
@@ -1125,6 +1141,15 @@ def lit_op(o):
         return f"OCutoff {nat(o[1])} {z(o[2])} {z(o[3])}"
     if k in ("OPad", "OSetChannel", "OScale", "OTranspose"):
         return f"{k} {nat(o[1])} {z(o[2])}"
+    # default-argument calls are expressed through the explicit-argument operations of the model
+    if k == "OQuantDefault":
+        return f"OQuantise {nat(o[1])} (get_default_step_sizes 0 0)"
+    if k == "OQnlDefault":
+        return f"OQnl {nat(o[1])} get_default_note_values PPQN false"
+    if k == "OQuantNormDefault":
+        return f"OQuantNorm {nat(o[1])} (get_default_step_sizes 0 0) get_default_note_values"
+    if k == "OScaleQ":
+        return f"HSEQ[OScale {nat(o[1])} {z(o[2])}; OQuantNorm {nat(o[1])} (get_default_step_sizes 0 0) get_default_note_values]"
     if k in ("OOverwriteAbs", "OOverwriteRel"):
         return f"{k} {nat(o[1])} {lit_msgs(o[2])}"
     if k in ("OSplit", "OQuantise"):
@@ -1148,7 +1173,15 @@ def lit_ops(ops):
     return "[" + "; ".join(lit_op(o) for o in ops) + "]"
 
 
-Op("history", lambda r: gen_history(r), lambda ops_: _exec(ops_), lambda ops_: f"show_trace {lit_ops(ops_)}",
+def lit_hops(ops):
+    out = []
+    for o in ops:
+        l = lit_op(o)
+        out.append("HSeq " + l[4:] if l.startswith("HSEQ[") else f"HOp ({l})")
+    return "[" + "; ".join(out) + "]"
+
+
+Op("history", lambda r: gen_history(r), lambda ops_: _exec(ops_), lambda ops_: f"show_trace_h {lit_hops(ops_)}",
    lambda ops_: len(ops_) >= 4)
 
 
